@@ -170,3 +170,11 @@ func lemma_deps_rdeps_inverse(g *DirectedTargetGraph, n, d model.BuildNode) ([]m
 //@   invariant [deps_are_edges] forall j int :: {ranged()[j]} 0 <= j && j < len(ranged()) ==> edge(g, ranged()[j], node)
 //@   invariant [so_far_behind_aliases] forall j int, d model.BuildNode :: {edge(g, d, ranged()[j])} 0 <= j && j <= rangeindex && !typeIs(ranged()[j], "*model.Target") && edge(g, d, ranged()[j]) && typeIs(d, "*model.Target") ==> inTargets(targets, asPtr(d, "*model.Target"))
 //@   invariant [so_far] forall j int :: {ranged()[j]} 0 <= j && j <= rangeindex && typeIs(ranged()[j], "*model.Target") ==> inTargets(targets, asPtr(ranged()[j], "*model.Target"))
+
+// C05: "the build exits non-zero and names every failed target": the error list is empty exactly when every recorded
+// completion is a success.
+//@ func (CompletionMap).GetErrors(c) (r)
+//@   pure
+//@   ensures [empty_iff_all_succeeded] len(r) == 0 <==> (forall k label.TargetLabel :: {has(c, k)} has(c, k) ==> c[k].IsSuccess)
+//@ loop #1
+//@   invariant [so_far] len(errorList) >= 0 && (len(errorList) == 0 <==> (forall k label.TargetLabel :: {seen(k)} seen(k) && has(c, k) ==> c[k].IsSuccess))
